@@ -22,7 +22,7 @@ DECIDING = ["datetime", "date", "time", "duration", "interval", "timezone"]
 FLOORS = {"quick": {"datetime": 100000, "date": 2000, "time": 2000, "duration": 30000, "interval": 20000, "timezone": 2000},
           "thorough": {"datetime": 10**6, "date": 20000, "time": 20000, "duration": 300000, "interval": 200000, "timezone": 4000}}
 REQUIRED_HOOKS = []
-TECHNIQUE = "differential runtime monitor: public-accessor tuple of original vs reconstruction for pickle protocols 0-5, copy and deepcopy; reduce/deepcopy hooks count the paths exercised"
+TECHNIQUE = "differential runtime monitor: public-accessor tuple of original vs reconstruction for pickle protocols 0-5, copy and deepcopy; reduce/deepcopy hooks count the paths exercised; Durations from integer and float arguments and from operator results"
 LEVEL_TEXT = ("every reconstruction (8 per value) is compared with the original through its public accessors (fields, instant, offset, "
               "fold, zone, components, sign, endpoints, absolute flag) and with ==; values include both folds of every overlap of "
               "every zone and every subset of Duration components; held on what was observed")
@@ -123,6 +123,24 @@ def cases(M):
                     v2 = dict(v)
                     v2[KW[b]] = -v2[KW[b]]
                     yield {"k": "dur", "v": v2, "mask": mask, "mixed": True}
+    # Durations built from FLOAT arguments (timedelta accepts them for every unit but years/months): tenths, binary
+    # fractions, values whose microsecond count sits on or next to a half (x.xxx5 ms), and Durations that are the
+    # result of an operator (scaled, divided, negated, summed) rather than of the constructor
+    for j in range((6000 if thorough else 1200) // M.nshards + 1):
+        v = {}
+        for b in range(2, 9):
+            if r.random() < 0.3:
+                lim = (20, 9, 40, 100, 200, 3000, 10**6)[b - 2]
+                x = r.choice((r.randrange(-lim, lim) + r.choice((0.5, 0.25, 0.1, 0.75, 1 / 3, 0.0005, 0.3455, 0.0905)),
+                              round(r.uniform(-lim, lim), 3) + 0.0005, round(r.uniform(-lim, lim), 4), r.uniform(-lim, lim), float(r.randrange(-lim, lim))))
+                v[KW[b]] = x
+        if not v:
+            v = {"milliseconds": round(r.uniform(0, 5000), 3) + 0.0005}
+        if r.random() < 0.4:
+            v["years"] = r.randrange(-5, 6)
+            v["months"] = r.randrange(-20, 21)
+        yield {"k": "dur", "v": v, "mask": -1, "float": True}
+        yield {"k": "durop", "v": {kk: int(x) for kk, x in v.items()}, "op": j % 6, "f": r.choice((0.5, 1.5, 0.1, 1 / 3, 2.5005, -0.75)), "n": r.choice((2, 3, 7, -4))}
     for j in range(20000 if thorough else 2000):
         kind = ("naive", "fixed", "date", "time", "timetz", "ivdate", "ivdt", "ivnaive", "fixedtz", "randdt")[j % 10]
         yield {"k": kind, "u": gen.random_instant(r), "u2": gen.random_instant(r), "f": j % 2, "off": r.choice((r.randrange(-86399, 86400), r.randrange(-1439, 1440) * 60)),
@@ -205,7 +223,19 @@ def run(M, c):
         except OverflowError:
             return
         M.cls("dur", c["mask"], tuple(sorted((n, x > 0) for n, x in c["v"].items())))
-        _judge(M, "duration", d, sig_extra=(":weeks" if d.weeks else "") + (":years-months" if d.years or d.months else ""))
+        _judge(M, "duration", d, sig_extra=(":weeks" if d.weeks else "") + (":years-months" if d.years or d.months else "") + (":float-args" if c.get("float") else ""))
+        return
+    if k == "durop":
+        try:
+            d = P.Duration(**c["v"])
+            e = P.Duration(days=3, seconds=7, microseconds=11)
+            d = (lambda: d * c["f"], lambda: d / c["n"], lambda: -d, lambda: d + e, lambda: d // c["n"], lambda: (d * c["n"]) % e)[c["op"]]()
+        except (OverflowError, ZeroDivisionError):
+            return
+        if not isinstance(d, P.Duration):
+            return
+        M.cls("durop", c["op"], bool(d.years or d.months))
+        _judge(M, "duration", d, sig_extra=":operator-result")
         return
     F = us_to_fields(c["u"])
     if k == "naive":
